@@ -458,6 +458,8 @@ class Interp:
                 if isinstance(a, Obj):
                     return self.obj_binop(sym, dunder, rdunder, a, b, node)
                 raise Unsupported("ndarray (op) object")
+            if sym == "@":
+                return self.lib.numpy.matmul(self, a, b, node)
             return self.lib.numpy.binop(self, sym, a, b, node)
         # object dispatch
         if isinstance(a, Obj) or isinstance(b, Obj):
@@ -1063,6 +1065,16 @@ class Interp:
     def aug(self, op, cur, val, node):
         if isinstance(cur, list) and op[0] == "+":
             cur.extend(self.iterate(val, node))
+            return cur
+        if isinstance(cur, NDArr):
+            # numpy's in-place operators write into the existing buffer (every alias sees the change)
+            res = self.lib.numpy.matmul(self, cur, val, node) if op[0] == "@" else self.lib.numpy.binop(self, op[0], cur, val, node)
+            if not isinstance(res, NDArr) or res.ndim != cur.ndim:
+                raise Unsupported("in-place array operator changing the number of dimensions")
+            if res.kind != cur.kind and not (cur.kind == "float" and res.kind in ("int", "bool")) and not (cur.kind == "int" and res.kind == "bool"):
+                self.fail("TypeError", f"cannot cast the result of an in-place operator from {res.kind} to {cur.kind}", node)
+            full = tuple(LibObj("slice", start=None, stop=None, step=None) for _ in range(cur.ndim))
+            self.lib.numpy.setitem(self, cur, full if cur.ndim != 1 else full[0], res.frozen(), node)
             return cur
         if isinstance(cur, Obj):
             idunder = "__i" + op[1][2:]
